@@ -249,7 +249,16 @@ fn msm<G: Cv>(pts: &[G], sc: &[G::ScalarField]) -> G::Group {
 
 /// Run the reference prover for `prog` (witness from the program's value rotation), optionally
 /// with one deviation during the run.
+/// Groups of random draws of the prover; a bit set in `zero_mask` makes every draw of that group zero
+/// (a prover is free to choose its randomness: the proof stays consistent with relations (b) and (c),
+/// but some mandatory points may become the identity, which relation (a) must catch).
+pub const ZERO_GROUPS: [&str; 10] = ["iota", "omicron", "sigma", "s_L", "s_R", "tau1", "tau3", "tau4", "tau5", "tau6"];
+
 pub fn ref_prove<G: Cv>(env: &Env<G>, labels: &Labels, prog: &Program, seed: u64, rng_tag: &str, dev: Option<RunDev>) -> Result<RefProved<G>, String> {
+    ref_prove_z::<G>(env, labels, prog, seed, rng_tag, dev, 0)
+}
+
+pub fn ref_prove_z<G: Cv>(env: &Env<G>, labels: &Labels, prog: &Program, seed: u64, rng_tag: &str, dev: Option<RunDev>, zero_mask: u32) -> Result<RefProved<G>, String> {
     type F<G> = <G as AffineRepr>::ScalarField;
     let mut rng = alphabet::chacha(seed, rng_tag);
     let mut cs = ModelCs::<F<G>> { t: Transcript::new(crate::program::LABEL), gates: 0, pending: None, commits: 0, _f: Default::default() };
@@ -272,11 +281,18 @@ pub fn ref_prove<G: Cv>(env: &Env<G>, labels: &Labels, prog: &Program, seed: u64
     let g0 = gs[0];
     let bb = env.pc.B_blinding.into_group();
     let bpt = env.pc.B.into_group();
-    let mut draw = || F::<G>::rand(&mut rng);
+    let mut draw_g = |group: usize| {
+        let v = F::<G>::rand(&mut rng);
+        if zero_mask & (1 << group) != 0 {
+            F::<G>::zero()
+        } else {
+            v
+        }
+    };
     // ---- phase 1 commitments
-    let (i1, o1, s1) = (draw(), draw(), draw());
-    let sl1: Vec<F<G>> = (0..n1).map(|_| draw()).collect();
-    let sr1: Vec<F<G>> = (0..n1).map(|_| draw()).collect();
+    let (i1, o1, s1) = (draw_g(0), draw_g(1), draw_g(2));
+    let sl1: Vec<F<G>> = (0..n1).map(|_| draw_g(3)).collect();
+    let sr1: Vec<F<G>> = (0..n1).map(|_| draw_g(4)).collect();
     let asg = ctx.refcs.actual.clone();
     let a_i1 = dev_point::<G>(&dev, Slot::Pt(0), msm::<G>(&gs[..n1], &asg.l[..n1]) + msm::<G>(&hs[..n1], &asg.r[..n1]) + bb * i1, env, &g0);
     let a_o1 = dev_point::<G>(&dev, Slot::Pt(1), msm::<G>(&gs[..n1], &asg.o[..n1]) + bb * o1, env, &g0);
@@ -311,9 +327,9 @@ pub fn ref_prove<G: Cv>(env: &Env<G>, labels: &Labels, prog: &Program, seed: u64
         return Err("capacity".into());
     }
     // ---- phase 2 commitments
-    let (i2, o2, s2) = if n2 > 0 { (draw(), draw(), draw()) } else { (F::<G>::zero(), F::<G>::zero(), F::<G>::zero()) };
-    let sl2: Vec<F<G>> = (0..n2).map(|_| draw()).collect();
-    let sr2: Vec<F<G>> = (0..n2).map(|_| draw()).collect();
+    let (i2, o2, s2) = if n2 > 0 { (draw_g(0), draw_g(1), draw_g(2)) } else { (F::<G>::zero(), F::<G>::zero(), F::<G>::zero()) };
+    let sl2: Vec<F<G>> = (0..n2).map(|_| draw_g(3)).collect();
+    let sr2: Vec<F<G>> = (0..n2).map(|_| draw_g(4)).collect();
     let (h_i2, h_o2, h_s2) = if n2 > 0 {
         (
             msm::<G>(&gs[n1..n], &asg.l[n1..n]) + msm::<G>(&hs[n1..n], &asg.r[n1..n]) + bb * i2,
@@ -353,7 +369,7 @@ pub fn ref_prove<G: Cv>(env: &Env<G>, labels: &Labels, prog: &Program, seed: u64
     let t4 = ip(&l1, &r3) + ip(&l3, &r1);
     let t5 = ip(&l2, &r3);
     let t6 = ip(&l3, &r3);
-    let taus: Vec<F<G>> = (0..5).map(|_| draw()).collect();
+    let taus: Vec<F<G>> = (0..5).map(|i| draw_g(5 + i)).collect();
     let ts = [t1, t3, t4, t5, t6];
     let mut tpts = vec![];
     for i in 0..5 {
